@@ -126,6 +126,13 @@ def make_function(key, params, is_async, view=False):
     for p in params:
         ann = f': {ANN_SRC[p["ann"]]}' if p.get('ann') else ''
         d = ' = None' if p['d'] == 'none' else (f' = {S.DEFAULT!r}' if p['d'] else '')
+        if p['k'] == 'vp':
+            parts.append('*' + p['n'])
+            star = True
+            continue
+        if p['k'] == 'vk':
+            parts.append('**' + p['n'])
+            continue
         if p['k'] == 'ko' and not star:
             parts.append('*')
             star = True
@@ -232,6 +239,13 @@ def twin(params):
     if key not in _TWIN:
         parts, star = [], False
         for p in params:
+            if p['k'] == 'vp':
+                parts.append('*' + p['n'])
+                star = True
+                continue
+            if p['k'] == 'vk':
+                parts.append('**' + p['n'])
+                continue
             if p['k'] == 'ko' and not star:
                 parts.append('*')
                 star = True
@@ -285,6 +299,8 @@ def reference(c):
             recv[p['n']] = '<CTX>'
         elif p['n'] in final:
             recv[p['n']] = norm_value(final[p['n']])
+        elif p['k'] in ('vp', 'vk'):
+            recv[p['n']] = [] if p['k'] == 'vp' else {}          # a variadic parameter that was given nothing
         else:
             recv[p['n']] = S.DEFAULT
     if view:
@@ -313,7 +329,8 @@ def make_case(params, validator, ctx, req_params, tag='validators', twin=None, v
         m['post'] = {'k': 'reject'}
     elif kind == 'accept':
         hidden = {'<self.context>'} | ({ctx} if (ctx and not view) else set())
-        args = {k: v for k, v in recv.items() if v != S.DEFAULT and k not in hidden}
+        variadic = {p['n'] for p in params if p['k'] in ('vp', 'vk')}
+        args = {k: v for k, v in recv.items() if v != S.DEFAULT and k not in hidden and k not in variadic}
         # with coercion pydantic hands over every model field, defaults included
         if validator['kind'] == 'pydantic' and validator.get('coerce', True):
             excluded = set(validator.get('excluded') or [])
@@ -413,6 +430,17 @@ def generate(tier, rng):
         ({'$schema': 'http://json-schema.org/draft-07/schema#', 'type': 'object',
           'properties': {'a': {'const': 'k'}}, 'required': ['a']}, ('k', 'z')),
     ]
+    # methods with *args / **kwargs that are given nothing for them (calls that do give them something are the recorded D6): the
+    # validators hand on exactly what was bound, nothing is invented for the variadic parameters
+    for vparams in ([{'n': 'a', 'k': 'pk', 'd': False}, {'n': 'kw', 'k': 'vk', 'd': False}],
+                    [{'n': 'a', 'k': 'pk', 'd': True}, {'n': 'rest', 'k': 'vp', 'd': False}],
+                    [{'n': 'a', 'k': 'pk', 'd': False}, {'n': 'rest', 'k': 'vp', 'd': False}, {'n': 'k', 'k': 'ko', 'd': True}, {'n': 'kw', 'k': 'vk', 'd': False}]):
+        for vv in ({'kind': 'jsonschema', 'schema': {'type': 'object'}}, {'kind': 'base'},
+                   {'kind': 'jsonschema', 'schema': {'type': 'object', 'properties': {'a': {'type': 'integer'}}}}):
+            for rp in ({'a': 1}, [1], {'a': 'x'}, {}, []):
+                if vparams[1]['k'] == 'vp' and isinstance(rp, list) and len(rp) > 1:
+                    continue
+                yield make_case(vparams, vv, None, rp, tag='validators-variadic-unused')
     for schema, vals in DIALECTS:
         params = [{'n': 'a', 'k': 'pk', 'd': 'required' not in schema and '03' not in schema['$schema']}]
         for val in vals:
